@@ -137,6 +137,26 @@ def check(R, F, P, cfg):
     szc = [x for x in S.nodes if x.ci is not None and x.ci["k"] == "call" and x.ci["npath"] == PC + "size"]
     R.inst("R11.3", "buffered_objects_count-forwards", len(szc) == 1, "buffered_objects_count reads PossibleCycles::size(): %d site(s)" % len(szc), where=bo.span, cfg=cfg)
 
+    # ---- R11.6 the public getters forward the thread-local counters ------------------------------------------------
+    R.doc("R11.6", "state::allocated_bytes / executions_count / is_tracing return Ok(<the same-named State getter>(state)) of the thread's own STATE and nothing else")
+    for pub, getter in (("state::allocated_bytes", ST + "allocated_bytes"), ("state::executions_count", ST + "executions_count"), ("state::is_tracing", ST + "is_tracing")):
+        f = anchor(F, pub)
+        S = Super(P, f, opaque=DO - {pub})
+        ts = [n for n in S.nodes if n.ci is not None and n.ci["k"] == "call" and n.ci["npath"] == "state::try_state"]
+        ok = len(ts) == 1
+        det = "%d try_state site(s)" % len(ts)
+        if ok:
+            env = S.args_of(ts[0])[0]
+            v = tables.closure_value(S, env)
+            v_ = strip(v) if v is not None else None
+            # Ok(getter(state))
+            ok = isinstance(v_, tuple) and v_[0] == "agg" and v_[2].endswith("Result::Ok") and strip(v_[3][0])[0] == "call" and strip(v_[3][0])[1] == getter
+            det = "closure returns %s" % (fmt(v)[:80] if v is not None else "?")
+            others = [x.ci["npath"] for x in effect_calls([y for y in S.call_nodes() if y.ci["k"] == "call"])]
+            ok = ok and not others
+            det += "; other effects: %s" % (others or "none")
+        R.inst("R11.6", "getter:%s" % pub, ok, "%s: %s (required Ok(%s(state)))" % (pub, det, short(getter)), where=f.span, cfg=cfg)
+
     # ---- R11.4 un-buffer sites ----------------------------------------------------------------------------------------------
     R.doc("R11.4", "callers of remove_from_list / mark_alive: the documented un-buffering operations")
     own = set(owners_of_calls(P, lambda c: c["npath"] == "cc::remove_from_list"))
